@@ -11,7 +11,7 @@
    (monotonicity of the mapper + least-upper-bound property of the join); antisymmetry. *)
 From Coq Require Import List String Bool Arith Lia Permutation.
 Import ListNotations.
-From Dagrt Require Import Unify UnifyProofs KindOrder KindInfer.
+From Dagrt Require Import Unify UnifyProofs KindOrder KindInfer KindRegistryProofs.
 
 (* ------------------------------------------------------------------ expressions *)
 
@@ -23,6 +23,7 @@ Section ExprInd.
   Hypothesis Hp : forall l, Forall P l -> P (EProd l).
   Hypothesis Hq : forall n d, P n -> P d -> P (EQuot n d).
   Hypothesis Hm : forall a b, P a -> P b -> P (ECmp a b).
+  Hypothesis Hcall : forall f args kwn, Forall P args -> P (ECall f args kwn).
 
   Fixpoint expr_ind' (e : expr) : P e :=
     match e with
@@ -40,6 +41,11 @@ Section ExprInd.
                           end) l)
     | EQuot n d => Hq n d (expr_ind' n) (expr_ind' d)
     | ECmp a b => Hm a b (expr_ind' a) (expr_ind' b)
+    | ECall f args kwn => Hcall f args kwn ((fix go (l : list expr) : Forall P l :=
+                            match l with
+                            | [] => Forall_nil P
+                            | x :: r => Forall_cons x (expr_ind' x) (go r)
+                            end) args)
     end.
 End ExprInd.
 
@@ -51,6 +57,13 @@ Fixpoint expr_ok (e : expr) : bool :=
   | EProd l => negb (match l with [] => true | _ => false end) && forallb expr_ok l
   | EQuot n d => expr_ok n && expr_ok d
   | ECmp _ _ => true
+  | ECall _ _ _ => true      (* a call returns proper kinds whatever its arguments are *)
+  end.
+
+Definition stmt_ok (s : bstmt) : bool :=
+  match b_rhs s with
+  | RExpr flat _ => expr_ok flat
+  | RCall _ _ _ => true
   end.
 
 Definition lk_le (lk lk' : string -> option okind) : Prop :=
@@ -70,6 +83,62 @@ Definition rrel (r r' : ires) : Prop :=
 Lemma rrel_unable : forall X, rrel IUnable X.
 Proof. intros [k| |e]; cbn; auto. Qed.
 
+(* the same for the results of map_generic_call(single_return_only=False) *)
+Definition mrel (m m' : mres) : Prop :=
+  match m' with
+  | MOk ks' => m = MUnable \/ exists ks, m = MOk ks /\ Forall2 kle ks ks'
+  | MUnable => m = MUnable
+  | MErr _ => True
+  end.
+
+Lemma lift1_rel : forall r r', rrel r r' -> mrel (lift1 r) (lift1 r').
+Proof.
+  intros r [k'| |e'] H; cbn in *; [|subst r; reflexivity|exact I].
+  destruct H as [->|[k [-> Hk]]]; [left; reflexivity|].
+  right. eexists; split; [reflexivity|]. constructor; [assumption|constructor].
+Qed.
+
+Lemma single_rel : forall m m', mrel m m' -> rrel (single m) (single m').
+Proof.
+  intros m [ks'| |e'] H; cbn in H.
+  - destruct ks' as [|k' [|k2' r']]; cbn; try exact I.
+    destruct H as [->|[ks [-> Hk]]]; [left; reflexivity|].
+    inversion Hk as [|k ? l ? Hkk Hl]; subst. inversion Hl; subst.
+    right. eexists; split; [reflexivity|assumption].
+  - subst m. reflexivity.
+  - exact I.
+Qed.
+
+Lemma arg_kinds_rel : forall rs rs', Forall2 rrel rs rs' ->
+  match arg_kinds rs' with
+  | Err _ => True
+  | Ok aks' => exists aks, arg_kinds rs = Ok aks /\ Forall2 wle aks aks'
+  end.
+Proof.
+  induction 1 as [|r r' rs rs' Hr Hrs IH]; cbn.
+  - exists []. split; [reflexivity|constructor].
+  - destruct r' as [k'| |e']; cbn in Hr; [| |exact I].
+    + destruct (arg_kinds rs') as [aks'|e]; [|exact I].
+      destruct IH as [aks [E Hw]].
+      destruct Hr as [->|[k [-> Hk]]]; cbn; rewrite E; eexists; (split; [reflexivity|]); constructor;
+        try assumption; [left; reflexivity|right; assumption].
+    + subst r. destruct (arg_kinds rs') as [aks'|e]; [|exact I].
+      destruct IH as [aks [E Hw]]. cbn. rewrite E. eexists; split; [reflexivity|].
+      constructor; [left; reflexivity|assumption].
+Qed.
+
+Lemma map_some_nonone : forall ks : list kind, Forall (fun k : okind => k <> None) (map (@Some kind) ks).
+Proof. induction ks; cbn; constructor; [discriminate|assumption]. Qed.
+
+Lemma call_res_some : forall c f rs kwn ks, call_res c f rs kwn = MOk ks -> Forall (fun k => k <> None) ks.
+Proof.
+  intros c f rs kwn ks. unfold call_res.
+  destruct (rlookup (c_reg c) f); [|discriminate].
+  destruct (arg_kinds rs); [|discriminate].
+  destruct (call_kinds (c_arr_only c) f0 a kwn); [|discriminate].
+  intros [= <-]. apply map_some_nonone.
+Qed.
+
 Section Fixed.
   Variable c : cfg.
   Hypothesis Hut : c_ut_int c = true.
@@ -85,6 +154,21 @@ Section Fixed.
     - f_equal. induction H0 as [|x l Hx Hl IH]; cbn; [reflexivity|]. rewrite Hx, IH; reflexivity.
     - f_equal. induction H0 as [|x l Hx Hl IH]; cbn; [reflexivity|]. rewrite Hx, IH; reflexivity.
     - rewrite IHe1, IHe2; reflexivity.
+    - do 2 f_equal. induction H0 as [|x l Hx Hl IH]; cbn; [reflexivity|]. rewrite Hx, IH; reflexivity.
+  Qed.
+
+  Lemma eval_work_ext : forall lk lk' s, (forall x, lk x = lk' x) -> eval_work c lk s = eval_work c lk' s.
+  Proof.
+    intros lk lk' s H. unfold eval_work. destruct (b_rhs s) as [flat raw|f args kwn].
+    - rewrite (infer_ext lk lk' flat H). reflexivity.
+    - f_equal. apply map_ext. intro e. apply infer_ext; assumption.
+  Qed.
+
+  Lemma eval_check_ext : forall lk lk' s, (forall x, lk x = lk' x) -> eval_check c lk s = eval_check c lk' s.
+  Proof.
+    intros lk lk' s H. unfold eval_check. destruct (b_rhs s) as [flat raw|f args kwn].
+    - rewrite (infer_ext lk lk' raw H). reflexivity.
+    - f_equal. apply map_ext. intro e. apply infer_ext; assumption.
   Qed.
 
   Lemma sum_fold_mono : forall rs rs', Forall2 rrel rs rs' ->
@@ -128,6 +212,24 @@ Section Fixed.
       + exact I.
   Qed.
 
+  (* the registry is monotone in the shape in which the matrix built-ins insist on arrays *)
+  Hypothesis Hao : c_arr_only c = true.
+
+  Lemma call_res_mono : forall f rs rs' kwn, Forall2 rrel rs rs' ->
+    mrel (call_res c f rs kwn) (call_res c f rs' kwn).
+  Proof.
+    intros f rs rs' kwn H. unfold call_res.
+    destruct (rlookup (c_reg c) f) as [sg|]; [|exact I].
+    pose proof (arg_kinds_rel rs rs' H) as Ha.
+    destruct (arg_kinds rs') as [aks'|e]; [|exact I].
+    destruct Ha as [aks [-> Hw]]. rewrite Hao.
+    pose proof (call_kinds_mono sg aks aks' kwn Hw) as Hk.
+    destruct (call_kinds true sg aks' kwn) as [ks'|]; cbn in Hk.
+    - destruct Hk as [->|[ks [-> Hks]]]; [left; reflexivity|].
+      right. eexists; split; [reflexivity|assumption].
+    - rewrite Hk. reflexivity.
+  Qed.
+
   (* monotonicity of the mapper: a smaller table can only make the result smaller or unknown *)
   Lemma infer_mono : forall lk lk' e, lk_le lk lk' -> rrel (infer c lk e) (infer c lk' e).
   Proof.
@@ -149,6 +251,15 @@ Section Fixed.
     - apply prod_fold_mono; [|apply kle_refl].
       constructor; [assumption|]. constructor; [assumption|constructor].
     - right. eexists; split; [reflexivity|apply kle_refl].
+    - apply single_rel. apply call_res_mono.
+      induction H as [|x l Hx Hl IH]; cbn; constructor; assumption.
+  Qed.
+
+  Lemma eval_work_mono : forall lk lk' s, lk_le lk lk' -> mrel (eval_work c lk s) (eval_work c lk' s).
+  Proof.
+    intros lk lk' s H. unfold eval_work. destruct (b_rhs s) as [flat raw|f args kwn].
+    - apply lift1_rel. apply infer_mono; assumption.
+    - apply call_res_mono. induction args; cbn; constructor; [apply infer_mono; assumption|assumption].
   Qed.
 
   Lemma sum_fold_some : forall rs acc exc k, sum_fold c rs acc exc = IOk k -> k <> None.
@@ -190,6 +301,19 @@ Section Fixed.
       + eapply IHe1; eassumption.
       + eapply IHe2; eassumption.
     - intros [= <-]; discriminate.
+    - intro Hs. unfold single in Hs.
+      destruct (call_res c f (map (infer c lk) args) kwn) as [ks| |e] eqn:E; try discriminate.
+      destruct ks as [|k1 [|? ?]]; try discriminate. injection Hs as <-.
+      apply call_res_some in E. inversion E; assumption.
+  Qed.
+
+  Lemma eval_work_some : forall lk s ks, lk_nonone lk -> stmt_ok s = true ->
+    eval_work c lk s = MOk ks -> Forall (fun k => k <> None) ks.
+  Proof.
+    intros lk s ks Hlk. unfold eval_work, stmt_ok. destruct (b_rhs s) as [flat raw|f args kwn].
+    - intros Hok. destruct (infer c lk flat) as [k| |e] eqn:E; cbn; try discriminate.
+      intros [= <-]. constructor; [|constructor]. eapply infer_some; eassumption.
+    - intros _. apply call_res_some.
   Qed.
 
 End Fixed.
